@@ -664,6 +664,47 @@ def task_held_suarez(ctx, cfg, levels, lname):
                      bits=12, exact_derivative=True)
 
 
+def task_checkpoint_gradients(ctx, length, lengths):
+  """'Gradient checkpointing and scan nesting do not change gradients': reverse-mode gradients of nested_checkpoint_scan equal those of the flat
+  scan (checks/c14.task_nested, uninterpreted scan body with uninterpreted partial derivatives), and gradients through trajectory_from_step /
+  repeated equal the gradients of the plain sequential loop, for EVERY step function (QF_UFNRA)."""
+  from checks import c14
+  from dinosaur import time_integration as ti
+  c14.task_nested(ctx, length, tuple(lengths), (2,), True)
+  ctx.encoded(ti.trajectory_from_step, ti.repeated)
+  step = c14.step
+  for outer, inner, swi in ((2, 2, False), (3, 1, True), (2, 3, True)):
+    wts = np.arange(1.0, outer + 1)
+
+    def impl(a, b, outer=outer, inner=inner, swi=swi, wts=wts):
+      final, traj = ti.trajectory_from_step(step, outer, inner, start_with_input=swi)((a, b))
+      return final[0] + 2.0 * final[1] + jnp.sum(traj[0] * wts) - jnp.sum(traj[1] * wts[::-1])
+
+    def spec(a, b, outer=outer, inner=inner, swi=swi, wts=wts):
+      u = (a, b); fr = []
+      for _ in range(outer):
+        if swi:
+          fr.append(u)
+        for _ in range(inner):
+          u = step(u)
+        if not swi:
+          fr.append(u)
+      return u[0] + 2.0 * u[1] + sum(w_ * f_[0] for w_, f_ in zip(wts, fr)) - sum(w_ * f_[1] for w_, f_ in zip(wts[::-1], fr))
+    c14.decide_equal(ctx, 'trajectory_from_step.gradients_equal_sequential_loop', dict(outer=outer, inner=inner, start_with_input=swi),
+                     jax.grad(impl, argnums=(0, 1)), jax.grad(spec, argnums=(0, 1)), [(), ()], logic='QF_UFNRA')
+  for n in (1, 3, 4):
+    def impl_r(a, b, n=n):
+      u = ti.repeated(step, n)((a, b))
+      return u[0] - 3.0 * u[1]
+
+    def spec_r(a, b, n=n):
+      u = (a, b)
+      for _ in range(n):
+        u = step(u)
+      return u[0] - 3.0 * u[1]
+    c14.decide_equal(ctx, 'repeated.gradients_equal_sequential_loop', dict(steps=n), jax.grad(impl_r, argnums=(0, 1)), jax.grad(spec_r, argnums=(0, 1)), [(), ()], logic='QF_UFNRA')
+
+
 def make_tasks(tier, seed):
   LS = models.level_sets(seed)
   cfg = dict(M=3, L=4, nlon=8, nlat=5)
@@ -687,6 +728,8 @@ def make_tasks(tier, seed):
   tasks.append(dict(name='upwind-derivative-dy3', fn='task_upwind_derivative', kw=dict(lname='dy3', levels=LS['dy3'].tolist())))
   if tier != 'quick':
     tasks.append(dict(name='upwind-derivative-dy4', fn='task_upwind_derivative', kw=dict(lname='dy4', levels=LS['dy4'].tolist())))
+  for n_, fa in (((6, (2, 3)), (8, (2, 2, 2))) if tier == 'quick' else ((6, (2, 3)), (8, (2, 2, 2)), (12, (3, 2, 2)), (9, (3, 3)), (5, (5, 1)))):
+    tasks.append(dict(name=f"checkpoint-gradients-{n_}-{'x'.join(map(str, fa))}", fn='task_checkpoint_gradients', kw=dict(length=n_, lengths=list(fa))))
   nodes = {'n3': [0.1, 0.3, 1.0], 'n4': [-1.0, -0.25, 0.5, 0.75]}
   for rn in ('jnp.interp', '_dot_interp', 'interp', 'linear_interp_with_linear_extrap'):
     for sn in (('n4',) if tier == 'quick' else ('n3', 'n4')):
